@@ -20,7 +20,10 @@ Inductive action :=
   | AStatic (lit:str)   (* self.static_output(lit + self.command_terminator)                                      *)
   | AExec (lit:str)     (* self._exec(lit)                                                                        *)
   | ASuper              (* super().emit_begin() / super().emit_commit()                                           *)
-  | ASepIfSql.          (* if self.as_sql and self.batch_separator: self.static_output(self.batch_separator)      *)
+  | ASepIfSql           (* if self.as_sql and self.batch_separator: self.static_output(self.batch_separator)      *)
+  | AGStatic (lit:str)  (* the first three again, but inside `if self.as_sql and self.batch_separator:`            *)
+  | AGExec (lit:str)
+  | AGSuper.
 
 Record klass := mkKlass {
   k_id : N; k_parent : option N;
@@ -28,6 +31,8 @@ Record klass := mkKlass {
   k_tddl : option bool;                 (* transactional_ddl = <literal>            (None: not set in this class) *)
   k_term : option str;                  (* command_terminator = <literal>                                         *)
   k_sep : option str;                   (* batch_separator = <literal>                                            *)
+  k_sep_opt : option bool;              (* Some true: __init__ does self.batch_separator = self.context_opts.get(
+                                           "<dialect>_batch_separator", self.batch_separator); root: Some false   *)
   k_exec_sep : option bool;             (* Some false: the root _exec; Some true: `_exec` = super()._exec(...) followed
                                            by the separator tail; None: inherited                                 *)
   k_begin : option (list action);       (* body of emit_begin                                                     *)
@@ -65,6 +70,10 @@ Section Interp.
     if exec_sep then match sep_chunks with Some l => Some (RRaw (lit ++ term) :: l) | None => None end
     else Some [RRaw (lit ++ term)].
 
+  (* `if self.as_sql and self.batch_separator:` around x *)
+  Definition guarded (x:option (list rchunk)) : option (list rchunk) :=
+    match sep with None => None | Some s => if nonempty s then x else Some [] end.
+
   Definition opt_app {A} (a b:option (list A)) : option (list A) :=
     match a, b with Some x, Some y => Some (x ++ y) | _, _ => None end.
 
@@ -83,6 +92,9 @@ Section Interp.
                            | AExec lit => exec_text lit
                            | ASuper => match k_parent c with Some p => emit f get p | None => None end
                            | ASepIfSql => sep_chunks
+                           | AGStatic lit => guarded (Some [RRaw (lit ++ term)])
+                           | AGExec lit => guarded (exec_text lit)
+                           | AGSuper => guarded (match k_parent c with Some p => emit f get p | None => None end)
                            end) body (Some [])
         end
     end.
@@ -95,11 +107,15 @@ Record dialect := mkDialect {
   d_commit : list rchunk          (* output of self.impl.emit_commit() *)
 }.
 
-Definition resolve (cs:list klass) (c:klass) : option dialect :=
+(* sepo: the value of the <dialect>_batch_separator option given to context.configure(), if any *)
+Definition resolve_sep (cs:list klass) (sepo:option str) (c:klass) : option dialect :=
   let fuel := S (length cs) in
   match lookup fuel cs k_tddl (k_id c), lookup fuel cs k_term (k_id c), lookup fuel cs k_exec_sep (k_id c) with
   | Some (_, tddl), Some (_, term), Some (_, es) =>
-      let sep := match lookup fuel cs k_sep (k_id c) with Some (_, s) => Some s | None => None end in
+      let sep := match sepo, lookup fuel cs k_sep_opt (k_id c) with
+                 | Some s, Some (_, true) => Some s
+                 | _, _ => match lookup fuel cs k_sep (k_id c) with Some (_, s) => Some s | None => None end
+                 end in
       match emit cs term sep es fuel k_begin (k_id c), emit cs term sep es fuel k_commit (k_id c) with
       | Some b, Some cm => Some (mkDialect (k_dialect c) tddl term sep es b cm)
       | _, _ => None
@@ -107,12 +123,17 @@ Definition resolve (cs:list klass) (c:klass) : option dialect :=
   | _, _, _ => None
   end.
 
+Definition resolve (cs:list klass) (c:klass) : option dialect := resolve_sep cs None c.
+
 Definition resolve_all (cs:list klass) : list (option dialect) := map (resolve cs) cs.
 
 (* a dialect the model can always fall back on (never a member of a generated table) *)
 Definition null_dialect : dialect := mkDialect [] false [] None false [] [].
 Definition dialect_of (cs:list klass) (i:nat) : dialect :=
   match nth i (resolve_all cs) None with Some d => d | None => null_dialect end.
+
+Definition dialect_of_sep (cs:list klass) (i:nat) (sepo:option str) : dialect :=
+  match nth i (map (resolve_sep cs sepo) cs) None with Some d => d | None => null_dialect end.
 
 (* DefaultImpl._exec of an arbitrary statement in as_sql mode: the statement's chunk and the separator tail *)
 Definition d_sep_chunks (d:dialect) : list rchunk :=
